@@ -682,3 +682,46 @@ mut('c15-new-raise-before-mark', 'C15', ['C15.5'], S,
     "        # Execute handlers\n        await self._execute_handlers(event, handlers=applicable_handlers, timeout=timeout)\n",
     "        if len(applicable_handlers) > 64:\n            raise ValueError('too many handlers')\n        # Execute handlers\n        await self._execute_handlers(event, handlers=applicable_handlers, timeout=timeout)\n",
     'a new exception leaves an event pending forever (new key)')
+
+# ================================================================================================ C16
+mut('c16-await-runloop-unbounded', 'C16', ['C16.1'], S,
+    "            await asyncio.wait({self._runloop_task}, timeout=0.1)\n", "            await self._runloop_task\n",
+    'stop() waits for the run loop without bound')
+mut('c16-wait-idle-without-timeout', 'C16', ['C16.1'], S,
+    "        if timeout is not None and timeout > 0:\n            try:\n                await self.wait_until_idle(timeout=timeout)",
+    "        if timeout is None or timeout > 0:\n            try:\n                await self.wait_until_idle(timeout=timeout)",
+    'stop() without timeout waits for idle forever')
+mut('c16-wui-unbounded-wait', 'C16', ['C16.1'], S,
+    "                idle_task = asyncio.create_task(self._on_idle.wait())\n                await asyncio.wait_for(idle_task, timeout=remaining_timeout)\n                await asyncio.sleep(0)  # Yield again",
+    "                idle_task = asyncio.create_task(self._on_idle.wait())\n                await idle_task\n                await asyncio.sleep(0)  # Yield again",
+    'wait_until_idle re-check waits without the remaining timeout')
+mut('c16-running-false-late', 'C16', ['C16.2'], S,
+    "        # Signal shutdown\n        self._is_running = False\n\n        # Shutdown the queue to unblock any pending get() operations\n        if self.event_queue:\n            self.event_queue.shutdown()\n",
+    "        # Shutdown the queue to unblock any pending get() operations\n        if self.event_queue:\n            self.event_queue.shutdown()\n",
+    '_is_running never cleared before waiting')
+mut('c16-no-shutdown', 'C16', ['C16.2'], S,
+    "        if self.event_queue:\n            self.event_queue.shutdown()\n\n        # print('STOPPING'", "        # print('STOPPING'",
+    'queue not shut down before waiting')
+mut('c16-no-cancel', 'C16', ['C16.2'], S,
+    "            try:\n                self._runloop_task.cancel()\n            except Exception:\n                pass\n", "            pass\n",
+    'hanging run loop not cancelled')
+mut('c16-revert-f7', 'C16', ['C16.3'], S,
+    "        except (RuntimeError, QueueShutDown):\n            # Queue was shut down or the event loop is closing",
+    "        except (asyncio.CancelledError, RuntimeError, QueueShutDown):\n            # Queue was shut down or the event loop is closing",
+    'CancelledError swallowed while polling (F7 reverted)')
+mut('c16-cancel-arm-inside-while', 'C16', ['C16.3'], S,
+    "                except QueueShutDown:\n                    # Queue was shut down, exit cleanly\n                    break\n",
+    "                except QueueShutDown:\n                    # Queue was shut down, exit cleanly\n                    break\n                except asyncio.CancelledError:\n                    continue\n",
+    'run loop swallows cancellation inside its while')
+mut('c16-bare-except-in-step', 'C16', ['C16.3'], S,
+    "            event = await self._get_next_event(wait_for_timeout=wait_for_timeout)\n            from_queue = True\n",
+    "            try:\n                event = await self._get_next_event(wait_for_timeout=wait_for_timeout)\n            except BaseException:\n                event = None\n            from_queue = True\n",
+    'step swallows every BaseException from polling')
+mut('c16-revert-f15', 'C16', ['C16.4'], M,
+    "                            if not bus or not bus.event_queue or not bus._is_running:  # pyright: ignore[reportPrivateUsage]",
+    "                            if not bus or not bus.event_queue:",
+    'inline loop drains stopped buses (F15 reverted)')
+mut('c16-get-next-no-running-check', 'C16', ['C16.4'], S,
+    "        if not self._is_running:\n            return None\n\n        try:\n            # Create a task for queue.get() so we can cancel it cleanly",
+    "        try:\n            # Create a task for queue.get() so we can cancel it cleanly",
+    'polling does not check _is_running first')
